@@ -3,6 +3,9 @@
    expression, and check_loops awaits nothing but its own recursion. *)
 From QT Require Import C04.Spec C04.ParThm Gen.C04Gen.
 
+Lemma check_is_unconditional : check_loops_conditions = 0.
+Proof. reflexivity. Qed.
+
 Lemma store_is_atomic : awaits_between_check_and_store = 0 /\ check_loops_foreign_awaits = 0.
 Proof. split; reflexivity. Qed.
 
